@@ -25,6 +25,18 @@ func init() {
 	register("lex", lexHandler)
 	register("pump", pumpHandler)
 	register("parse", parseHandler)
+	// the strconv.ParseFloat verdicts the parser model needs as its oracle (floatOracle and
+	// significant are C02's, harness/cmd/implrun/parse.go): "hex=0/1,..." or "-"
+	register("floats", func(args string) string {
+		src, err := unhx(strings.TrimSpace(args))
+		if err != nil {
+			return "badreq"
+		}
+		if o := floatOracle(significant(string(src))); o != "" {
+			return o
+		}
+		return "-"
+	})
 }
 
 func tokSx(t token.Token) string {
